@@ -146,6 +146,71 @@ func init() {
 		})
 		sort.Strings(sites)
 
+		// persistence of the notice fields of State (overlord/state/state.go)
+		const srel = "overlord/state/state.go"
+		sfs, sf, sb := parseFile(srel)
+		// body text without white space, with the receiver renamed to `s` and (UnmarshalJSON) the local variable of type
+		// marshalledState renamed to `unmarshalled`, so that renaming either is not mistaken for a dropped field
+		body := func(name string) string {
+			for _, d := range sf.Decls {
+				fd, ok := d.(*ast.FuncDecl)
+				if !ok || fd.Name.Name != name || fd.Recv == nil || fd.Body == nil {
+					continue
+				}
+				se, ok := fd.Recv.List[0].Type.(*ast.StarExpr)
+				if !ok {
+					continue
+				}
+				if id, ok := se.X.(*ast.Ident); !ok || id.Name != "State" {
+					continue
+				}
+				ren := map[string]string{}
+				if len(fd.Recv.List[0].Names) == 1 {
+					ren[fd.Recv.List[0].Names[0].Name] = "s"
+				}
+				ast.Inspect(fd.Body, func(n ast.Node) bool {
+					if vs, ok := n.(*ast.ValueSpec); ok && len(vs.Names) == 1 {
+						if id, ok := vs.Type.(*ast.Ident); ok && id.Name == "marshalledState" {
+							ren[vs.Names[0].Name] = "unmarshalled"
+						}
+					}
+					return true
+				})
+				type edit struct {
+					pos, end int
+					to       string
+				}
+				var edits []edit
+				base := sfs.Position(fd.Body.Pos()).Offset
+				ast.Inspect(fd.Body, func(n ast.Node) bool {
+					if id, ok := n.(*ast.Ident); ok && id.Obj != nil {
+						if to, ok := ren[id.Name]; ok && to != id.Name {
+							edits = append(edits, edit{sfs.Position(id.Pos()).Offset - base, sfs.Position(id.End()).Offset - base, to})
+						}
+					}
+					return true
+				})
+				txt := string(src(sfs, sb, fd.Body))
+				sort.Slice(edits, func(i, j int) bool { return edits[i].pos > edits[j].pos })
+				for _, e := range edits {
+					txt = txt[:e.pos] + e.to + txt[e.end:]
+				}
+				return strings.Join(strings.Fields(txt), "")
+			}
+			die("%s: (*State).%s not found", srel, name)
+			return ""
+		}
+		mj, uj := body("MarshalJSON"), body("UnmarshalJSON")
+		if !strings.Contains(mj, "json.Marshal(marshalledState{") || !strings.Contains(uj, "json.Unmarshal(data,&unmarshalled)") {
+			die("%s: State.MarshalJSON / UnmarshalJSON no longer go through marshalledState", srel)
+		}
+		flag := func(txt, pat string) string {
+			if strings.Contains(txt, pat) {
+				return "true"
+			}
+			return "false"
+		}
+
 		fmt.Print(header(rel, src(fset, b, valid)))
 		fmt.Println("From Coq Require Import List NArith String.\nImport ListNotations.\nRequire Import V.lib.Bytes.")
 		var items []string
@@ -158,6 +223,13 @@ func init() {
 		for _, s := range sites {
 			items = append(items, fmt.Sprintf("bs %q", s))
 		}
+		fmt.Printf("(* State.MarshalJSON writes / State.UnmarshalJSON restores: the notices, lastNoticeId, lastNoticeTimestamp *)\n")
+		fmt.Printf("Definition persist_notices : bool := %s.\n", flag(mj, "Notices:s.flattenNotices(nil),"))
+		fmt.Printf("Definition persist_last_id : bool := %s.\n", flag(mj, "LastNoticeId:s.lastNoticeId,"))
+		fmt.Printf("Definition persist_last_ts : bool := %s.\n", flag(mj, "LastNoticeTimestamp:s.lastNoticeTimestamp,"))
+		fmt.Printf("Definition restore_notices : bool := %s.\n", flag(uj, "s.unflattenNotices(unmarshalled.Notices)"))
+		fmt.Printf("Definition restore_last_id : bool := %s.\n", flag(uj, "s.lastNoticeId=unmarshalled.LastNoticeId"))
+		fmt.Printf("Definition restore_last_ts : bool := %s.\n", flag(uj, "s.lastNoticeTimestamp=unmarshalled.LastNoticeTimestamp"))
 		fmt.Printf("(* places outside tests that set AddNoticeOptions.Time *)\nDefinition explicit_time_sites : list bytes := [%s].\n", strings.Join(items, "; "))
 	}
 }
